@@ -37,6 +37,7 @@ type engOp struct {
 	Kind    string `json:"kind"` // load render remove clear
 	Name    string `json:"name"`
 	Content string `json:"content,omitempty"`
+	FromDoc bool   `json:"from_doc,omitempty"`
 	data    *tdata
 	DataIdx int `json:"data_idx"`
 }
@@ -92,7 +93,14 @@ func genEngineOps(r *rng, feats map[string]int, names []string, n int, datas *[]
 		switch r.pick([]int{20, 25, 35, 8, 3, 9}) {
 		case 0: // base or plain
 			nm := names[r.intn(len(names))]
-			ops = append(ops, engOp{Kind: "load", Name: nm, Content: genBaseText(g)})
+			o := engOp{Kind: "load", Name: nm, Content: genBaseText(g)}
+			if r.chance(30) {
+				// loaded from a document: the content is what the engine reads off the paragraphs (every line ended)
+				o.FromDoc = true
+				o.Content += "\n"
+				feats["load base from a document"]++
+			}
+			ops = append(ops, o)
 			loaded = append(loaded, nm)
 			feats["load base"]++
 		case 1: // derived
@@ -142,18 +150,44 @@ func genEngineOps(r *rng, feats map[string]int, names []string, n int, datas *[]
 	return ops
 }
 
+// docOfLines: the document a template is loaded from - one paragraph per line of the content
+func docOfLines(content string) *document.Document {
+	d := document.New()
+	for _, line := range strings.Split(strings.TrimSuffix(content, "\n"), "\n") {
+		d.AddParagraph(line)
+	}
+	return d
+}
+
+// renderText: the text RenderToDocument appends; for a template loaded from a document the result begins with a copy
+// of that document, which must show the document's paragraphs as they were loaded ("base-doc-changed" otherwise)
 func renderText(te *document.TemplateEngine, name string, d *tdata) (string, bool) {
+	var baseTexts []string
+	if t, err := te.GetTemplate(name); err == nil && t != nil && t.BaseDoc != nil {
+		baseTexts = docParagraphTexts(t.BaseDoc)
+	}
 	doc, err := te.RenderToDocument(name, d.toGo())
 	if err != nil {
 		return "", false
 	}
-	return strings.Join(docParagraphTexts(doc), "\n"), true
+	texts := docParagraphTexts(doc)
+	if len(baseTexts) > 0 {
+		if len(texts) < len(baseTexts) || strings.Join(texts[:len(baseTexts)], "\n") != strings.Join(baseTexts, "\n") {
+			return "base-doc-changed: " + strings.Join(texts, "\n"), true
+		}
+		texts = texts[len(baseTexts):]
+	}
+	return strings.Join(texts, "\n"), true
 }
 
 func applyEngOp(te *document.TemplateEngine, o engOp) (string, bool, bool) {
 	switch o.Kind {
 	case "load":
-		te.LoadTemplate(o.Name, o.Content)
+		if o.FromDoc {
+			te.LoadTemplateFromDocument(o.Name, docOfLines(o.Content))
+		} else {
+			te.LoadTemplate(o.Name, o.Content)
+		}
 	case "remove":
 		te.RemoveTemplate(o.Name)
 	case "clear":
